@@ -19,7 +19,7 @@ extern int __lsan_do_recoverable_leak_check(void) __attribute__((weak));
 extern void __gcov_dump(void);   // coverage flavour (-DVERIF_COV --coverage): the child leaves through _exit, so flush the counters by hand
 #endif
 
-typedef struct { int errs, warns, msgok, lineok, l0, l0eof; char first[96]; char l0msg[96]; } CB;
+typedef struct { int errs, warns, msgok, lineok, l0, l0eof; char first[96]; char l0msg[96]; char diag[400]; int ndiag; } CB;
 typedef struct { char* name; char* content; } INC;
 static INC incs[64]; static int nincs;
 static char* units[16]; static int nunits;
@@ -29,6 +29,14 @@ static char* fname; static char* nspace;   // N<hex> file name given to add_file
 static void ccb(int level, const char* file, int line, const YR_RULE* rule, const char* msg, void* ud)
 {
   CB* c = (CB*) ud;
+  // every diagnostic in order: E|W <line> @ <last path component of the file name, '-' when none>
+  if (c->ndiag < 24)
+  {
+    const char* fb = file ? (strrchr(file, '/') ? strrchr(file, '/') + 1 : file) : "-";
+    size_t dl = strlen(c->diag);
+    snprintf(c->diag + dl, sizeof c->diag - dl, "%s%c%d@%.12s", c->ndiag ? "," : "", level == YARA_ERROR_LEVEL_ERROR ? 'E' : 'W', line, fb[0] ? fb : "-");
+    c->ndiag++;
+  }
   if (level == YARA_ERROR_LEVEL_ERROR)
   {
     if (c->errs == 0 && msg) snprintf(c->first, sizeof c->first, "%s", msg);
@@ -137,9 +145,9 @@ static void child(char mode, uint8_t* src, size_t len, int rfd)
   }
   kind[k] = 0;
   for (char* p = c.l0msg; *p; p++) if (*p == ' ') *p = '_';
-  char res[512];
-  int l = snprintf(res, sizeof res, "errs=%d cb=%d warn=%d msgok=%d lasterr=%s lineok=%d l0=%d l0eof=%d rules=%d scan=%s destroy=1 follow=%s kind=%s l0msg=%.60s", errs, c.errs, c.warns, c.msgok,
-                   errname(lasterr), c.lineok, c.l0, c.l0eof, got, scan, follow, k ? kind : "-", c.l0msg[0] ? c.l0msg : "-");
+  char res[1024];
+  int l = snprintf(res, sizeof res, "errs=%d cb=%d warn=%d msgok=%d lasterr=%s lineok=%d l0=%d l0eof=%d rules=%d scan=%s destroy=1 follow=%s kind=%s l0msg=%.60s diag=%s", errs, c.errs, c.warns, c.msgok,
+                   errname(lasterr), c.lineok, c.l0, c.l0eof, got, scan, follow, k ? kind : "-", c.l0msg[0] ? c.l0msg : "-", c.ndiag ? c.diag : "-");
   if (write(rfd, res, l) != l) _exit(24);
 #ifdef VERIF_COV
   __gcov_dump();
@@ -206,7 +214,7 @@ int main(int argc, char** argv)
     }
     if (timed_out) kill(pid, SIGKILL);
     int status = 0; waitpid(pid, &status, 0);
-    char res[512]; ssize_t rl = read(rp[0], res, sizeof res - 1); if (rl < 0) rl = 0; res[rl] = 0;
+    char res[1024]; ssize_t rl = read(rp[0], res, sizeof res - 1); if (rl < 0) rl = 0; res[rl] = 0;
     close(ep[0]); close(rp[0]);
     msg[ml] = 0;
     if (timed_out) printf("%s TIMEOUT\n", t[0]);
